@@ -71,8 +71,7 @@ func snapshot(v reflect.Value, cmap ast.CommentMap) (val *value) {
 	if t.Implements(goast.NodeType) && !v.IsNil() {
 		defer func(n ast.Node) {
 			val.IsNode = true
-			val.pos = n.Pos()
-			val.end = n.End()
+			val.pos, val.end = nodeRange(n)
 			val.Comments = cmap[n]
 		}(v.Interface().(ast.Node))
 	}
@@ -113,6 +112,22 @@ func snapshot(v reflect.Value, cmap ast.CommentMap) (val *value) {
 			value: v.Interface(),
 		}
 	}
+}
+
+// nodeRange reports n.Pos() and n.End().
+//
+// Patches are not type checked, so a rewritten tree can contain nodes that
+// go/ast's accessors do not expect and panic on: for example, an assignment
+// whose left-hand side was a "..." that matched nothing. Such a node has no
+// usable range; whether the rewritten file is valid Go is decided when it is
+// printed and parsed again.
+func nodeRange(n ast.Node) (pos, end token.Pos) {
+	defer func() {
+		if recover() != nil {
+			pos, end = token.NoPos, token.NoPos
+		}
+	}()
+	return n.Pos(), n.End()
 }
 
 func minPos(l, r token.Pos) token.Pos {
